@@ -155,31 +155,88 @@ Proof.
 Qed.
 
 (* Example on real parameters (restic's default polynomial, avg 4096 / min 4096 / max 8192):
-   two pseudo-random 24000-byte streams; a1 = the first two chunks of the first, a2 = the first
-   chunk of the second, t = the rest of the first stream.  Both a1 ++ t and a2 ++ t cut t alike. *)
+   s1 = 14500 pseudo-random bytes whose chunks are 4334 4208 4265 1693; a1 = its first two chunks,
+   t = the rest; a2 = the first chunk (4173 bytes) of another pseudo-random stream.  Both a1 ++ t and
+   a2 ++ t cut t as t alone is cut.  Everything is evaluated once, inside one boolean (the
+   independent checker coqchk has no virtual machine). *)
 Fixpoint lcg (n : nat) (x : N) : bytes :=
   match n with
   | O => []
   | S k => (x / 65536) mod 256 :: lcg k ((x * 1103515245 + 12345) mod 2147483648)
   end.
 Definition ss_p : cparams := {| c_poly := 0x3DA3358B4DC173; c_avg := 4096; c_min := 4096; c_max := 8192 |}.
-Definition ss_pre1 : list bytes := firstn 2 (cuts ss_p (lcg 24000 1)).
-Definition ss_a1 : bytes := concat ss_pre1.
-Definition ss_t : bytes := skipn (length ss_a1) (lcg 24000 1).
-Definition ss_a2 : bytes := hd [] (cuts ss_p (lcg 24000 99)).
-Fixpoint lens (cs : list bytes) : list nat := match cs with [] => [] | c :: r => length c :: lens r end.
+Definition ss_s1 : bytes := lcg 14500 4652.
+Definition ss_a1 : bytes := firstn 8542 ss_s1.
+Definition ss_t : bytes := skipn 8542 ss_s1.
+Definition ss_a2 : bytes := firstn 4173 (lcg 4300 25).
+Fixpoint lens (cs : list bytes) : list N := match cs with [] => [] | c :: r => nlen c :: lens r end.
+Fixpoint lbeq (a b : list N) : bool :=
+  match a, b with
+  | [], [] => true
+  | x :: a', y :: b' => (x =? y) && lbeq a' b'
+  | _, _ => false
+  end.
+Fixpoint llbeq (a b : list (list N)) : bool :=
+  match a, b with
+  | [], [] => true
+  | x :: a', y :: b' => lbeq x y && llbeq a' b'
+  | _, _ => false
+  end.
+Lemma lbeq_eq : forall a b, lbeq a b = true -> a = b.
+Proof.
+  induction a as [|x a IH]; intros [|y b] H; cbn [lbeq] in H; try discriminate; [reflexivity|].
+  apply andb_prop in H. destruct H as [H1 H2]. apply N.eqb_eq in H1. subst. f_equal. apply IH. assumption.
+Qed.
+Lemma lbeq_refl : forall a, lbeq a a = true.
+Proof. induction a as [|x a IH]; cbn [lbeq]; [reflexivity|]. rewrite N.eqb_refl, IH. reflexivity. Qed.
+Lemma llbeq_eq : forall a b, llbeq a b = true -> a = b.
+Proof.
+  induction a as [|x a IH]; intros [|y b] H; cbn [llbeq] in H; try discriminate; [reflexivity|].
+  apply andb_prop in H. destruct H as [H1 H2]. apply lbeq_eq in H1. subst. f_equal. apply IH. assumption.
+Qed.
+
+Lemma nonnil_flag {A} (l : list A) : match l with [] => false | _ => true end = true -> l <> [].
+Proof. destruct l; [discriminate|intros _; discriminate]. Qed.
+
+Definition ss_checkf (acc : bool) (c1 c2 ct : list bytes) (a1 a2 : bytes) : bool :=
+  acc
+  && lbeq (concat (firstn 2 c1)) a1 && llbeq (skipn 2 c1) ct
+  && lbeq (concat (firstn 1 c2)) a2 && llbeq (skipn 1 c2) ct
+  && lbeq (lens c1) [4334; 4208; 4265; 1693] && lbeq (lens c2) [4173; 4265; 1693]
+  && negb (lbeq a1 a2)
+  && match ct with [] => false | _ => true end.
+
+Lemma ss_sound acc c1 c2 ct a1 a2 : ss_checkf acc c1 c2 ct a1 a2 = true ->
+  acc = true /\ a1 <> a2 /\ ct <> [] /\
+  c1 = firstn 2 c1 ++ ct /\ concat (firstn 2 c1) = a1 /\
+  c2 = firstn 1 c2 ++ ct /\ concat (firstn 1 c2) = a2.
+Proof.
+  unfold ss_checkf. intros H.
+  apply andb_prop in H; destruct H as [H Hne]. apply andb_prop in H; destruct H as [H Hdiff].
+  apply andb_prop in H; destruct H as [H _]. apply andb_prop in H; destruct H as [H _].
+  apply andb_prop in H; destruct H as [H Hpost2]. apply andb_prop in H; destruct H as [H Hpre2].
+  apply andb_prop in H; destruct H as [H Hpost1]. apply andb_prop in H; destruct H as [Hacc Hpre1].
+  apply llbeq_eq in Hpost1, Hpost2. apply lbeq_eq in Hpre1, Hpre2.
+  split; [assumption|].
+  split; [intros E; rewrite E, lbeq_refl in Hdiff; discriminate|].
+  split; [apply nonnil_flag; exact Hne|].
+  split; [rewrite <- Hpost1; symmetry; apply firstn_skipn|]. split; [assumption|].
+  split; [rewrite <- Hpost2; symmetry; apply firstn_skipn|]. assumption.
+Qed.
+
+Lemma ss_check_true :
+  ss_checkf (rabin_accepts (c_avg ss_p) (c_min ss_p) (c_max ss_p))
+            (cuts ss_p (ss_a1 ++ ss_t)) (cuts ss_p (ss_a2 ++ ss_t)) (cuts ss_p ss_t) ss_a1 ss_a2 = true.
+Proof. vm_compute. reflexivity. Qed.
 
 Example shared_suffix_example :
-  rabin_accepts (c_avg ss_p) (c_min ss_p) (c_max ss_p) = true /\
-  length ss_a1 = 11726%nat /\
-  lens ss_pre1 = [4454; 7272]%nat /\ length ss_a2 = 8155%nat /\
-  cuts ss_p (ss_a1 ++ ss_t) = ss_pre1 ++ cuts ss_p ss_t /\
-  cuts ss_p (ss_a2 ++ ss_t) = [ss_a2] ++ cuts ss_p ss_t /\
-  lens (cuts ss_p ss_t) = [8192; 4082]%nat.
+  exists pre1 pre2 post,
+    rabin_accepts (c_avg ss_p) (c_min ss_p) (c_max ss_p) = true /\ ss_a1 <> ss_a2 /\ post <> [] /\
+    cuts ss_p (ss_a1 ++ ss_t) = pre1 ++ post /\ concat pre1 = ss_a1 /\
+    cuts ss_p (ss_a2 ++ ss_t) = pre2 ++ post /\ concat pre2 = ss_a2 /\
+    post = cuts ss_p ss_t.
 Proof.
-  split; [vm_compute; reflexivity|].
-  split; [vm_compute; reflexivity|].
-  split; [vm_compute; reflexivity|]. split; [vm_compute; reflexivity|].
-  split; [vm_compute; reflexivity|]. split; [vm_compute; reflexivity|].
-  vm_compute. reflexivity.
+  destruct (ss_sound _ _ _ _ _ _ ss_check_true) as [H1 [H2 [H3 [H4 [H5 [H6 H7]]]]]].
+  exists (firstn 2 (cuts ss_p (ss_a1 ++ ss_t))), (firstn 1 (cuts ss_p (ss_a2 ++ ss_t))), (cuts ss_p ss_t).
+  repeat (split; [assumption|]). reflexivity.
 Qed.
